@@ -41,9 +41,17 @@ const (
 	opGarbageChunk        // insert 18 random bytes (a fake length chunk) before a frame
 	opOverwrite           // overwrite a run of bytes with random bytes
 	opKinds
+
+	// long-session operators (TestLongSessions only)
+	opReplayAt = opKinds     // a recorded copy of frame k is inserted before frame k+d
+	opSwapAt   = opKinds + 1 // frames k and k+d are exchanged
 )
 
-var opNames = [...]string{"flip", "cut", "drop", "dup", "swap", "splice-frame", "splice-head", "swap-stream", "insert", "delete", "append", "garbage-chunk", "overwrite"}
+// replayDistances: distances in frames (= chunks = two seals each) at which a nonce counter that loses a carry
+// or wraps early would repeat: 128 frames = 256 seals, 255 frames = 510 seals, 32768 frames = 65536 seals, ...
+var replayDistances = []int{1, 2, 127, 128, 254, 255, 256, 510, 0 /* random */, 32768, 32640}
+
+var opNames = [...]string{"flip", "cut", "drop", "dup", "swap", "splice-frame", "splice-head", "swap-stream", "insert", "delete", "append", "garbage-chunk", "overwrite", "replay-at", "swap-at"}
 
 // opSpec is the abstract description of one tamper; offsets are resolved against the actual
 // frames of the session (whose lengths depend on the client's random padding).
@@ -57,6 +65,8 @@ type opSpec struct {
 	FrameSel  int  `json:"frame_sel"`
 	Frame2Sel int  `json:"frame2_sel"`
 	N         int  `json:"n"`
+	K         int  `json:"k"`         // long sessions: frame index selector
+	DistSel   int  `json:"dist"`      // long sessions: index into replayDistances
 	AbsFrame  int  `json:"abs_frame"` // >= 0: explicit frame/offset (exhaustive mode); RegionSel/Off* ignored
 	AbsOff    int  `json:"abs_off"`
 }
@@ -456,6 +466,32 @@ func apply(w *sstcp.World, dir int, op opSpec, seed uint64, x, y [][]byte) (t []
 		}
 		t[0] = append(append([]byte(nil), x[0][:k]...), y[0][k:]...)
 		return t, regionAt(w, dir, x, 0, k), true
+	case opReplayAt, opSwapAt:
+		// frames 1.. are data chunks (frame 0 is the handshake / response header + first chunk)
+		n := len(x)
+		if n < 4 {
+			return nil, "", false
+		}
+		d := replayDistances[op.DistSel%len(replayDistances)]
+		maxD := n - 1 // replay: k+d <= n with k >= 1
+		if op.Kind == opSwapAt {
+			maxD = n - 2 // swap: k+d <= n-1
+		}
+		dname := fmt.Sprintf("d=%d", d)
+		if d == 0 || d > maxD {
+			d = 1 + op.OffSel%maxD
+			dname = "d=random"
+		}
+		k := 1 + op.K%(maxD-d+1)
+		if op.Kind == opSwapAt {
+			t[k], t[k+d] = t[k+d], t[k]
+			return t, dname, true
+		}
+		out := make([][]byte, 0, n+1)
+		out = append(out, t[:k+d]...)
+		out = append(out, append([]byte(nil), x[k]...))
+		out = append(out, t[k+d:]...)
+		return out, dname, true
 	case opSwapStream:
 		if len(y) == 0 || (dir == dirC2S && !op.Foreign) {
 			return nil, "", false
@@ -728,6 +764,14 @@ func runCase(p *casePlan) (r result) {
 			if fb >= f0 {
 				r.fail("genuine-handshake-refused", "untouched handshake (first altered offset %d >= %d) handed to the fallback", fb, f0)
 			}
+			if ss.req.Username != "" {
+				r.fail("fallback-request-carries-user", "%s in %s: the unauthenticated connection handed to the fallback is attributed to user %q (handshake altered at offset %d, fixed part ends at %d)",
+					opName, region, ss.req.Username, fb, w.ServerFixedEnd())
+			}
+			if p.Class.NIPSK > 0 && fb >= w.ServerFixedEnd()-sstcp.FixedReqLen-sstcp.TagSize && fb < w.ServerFixedEnd() {
+				// salt and identity header are genuine (the user lookup succeeds), the sealed fixed-length header is not
+				r.label("fallback-after-successful-user-lookup")
+			}
 			if ss.delivered > len(tRelayed) || len(ss.payload) != ss.delivered || !bytes.Equal(ss.payload, tRelayed[:ss.delivered]) {
 				r.fail("fallback-payload-differs", "fallback payload (%d bytes) is not byte-for-byte what the transport delivered (%d bytes; first difference at %d)",
 					len(ss.payload), ss.delivered, firstDiff(ss.payload, tRelayed))
@@ -746,6 +790,9 @@ func runCase(p *casePlan) (r result) {
 			}
 			if !ss.req.Addr.Equals(a.target) {
 				r.fail("wrong-target", "request address %v, client asked for %v", ss.req.Addr, a.target)
+			}
+			if want := map[bool]string{true: w.UserName, false: ""}[p.Class.NIPSK > 0]; ss.req.Username != want {
+				r.fail("wrong-user", "request attributed to user %q, the client's key belongs to %q", ss.req.Username, want)
 			}
 			got := drained{pre: append(append([]byte(nil), ss.payload...), ss.read.pre...), post: ss.read.post, err: ss.read.err, stalled: ss.read.stalled}
 			if len(ss.payload) != units[1].app {
